@@ -242,6 +242,42 @@ pub fn run(rep: &'static Report) {
         });
         rep.extra("cli_blob_bit_flips", json!(672));
     }
+    // CLI level, passwords that are not valid UTF-8 (the environment can carry any bytes): the tool may refuse them, but a
+    // key locked under one byte string must never be opened under a different one
+    {
+        use crate::proc::{self, Cmd, Scratch};
+        let bw: Vec<(&str, Vec<u8>)> = vec![("ff", vec![0xff]), ("fe", vec![0xfe]), ("ff-fe", vec![0xff, 0xfe]), ("replacement-character", "\u{fffd}".as_bytes().to_vec()), ("two-replacement-characters", "\u{fffd}\u{fffd}".as_bytes().to_vec()), ("a-ff", vec![b'a', 0xff]), ("a-c3", vec![b'a', 0xc3]), ("a", vec![b'a'])];
+        let locked: Vec<String> = bw.iter().map(|(_, w)| r::b64(&r::lock_key(&keys[0], w, &salts[0]))).collect();
+        let mut jobs = vec![];
+        for i in 0..bw.len() {
+            for j in 0..bw.len() {
+                if i != j {
+                    jobs.push((i, j));
+                }
+            }
+        }
+        jobs.par_iter().for_each(|&(i, j)| {
+            rep.eval(1);
+            rep.nontrivial(format!("cli-bytes-{}-{}", i, j).as_bytes());
+            let attempt = || -> Result<(), String> {
+                let sc = Scratch::new();
+                let mut c = Cmd::new(&["key", "extract-pub", &locked[i], "--env-pass"]);
+                c.env_bytes.push(("KESTREL_PASSWORD".into(), bw[j].1.clone()));
+                let out = proc::run(&c, &sc.0);
+                out.well_behaved()?;
+                if out.ok() {
+                    return Err(format!("CLI: key locked under the bytes {} is opened by KESTREL_PASSWORD = the different bytes {}", hx(&bw[i].1), hx(&bw[j].1)));
+                }
+                Ok(())
+            };
+            if attempt().is_err() {
+                if let Err(e) = attempt() {
+                    rep.violation("cli/other-byte-password-accepted", json!({"kind":"cli-bytes","locked":locked[i],"w":hx(&bw[i].1),"w2":hx(&bw[j].1)}), e);
+                }
+            }
+        });
+        rep.extra("cli_byte_password_pairs", json!(jobs.len()));
+    }
     // CLI level: a key locked (REF) under w must be opened by `kestrel key extract-pub --env-pass` under w' iff w' == w
     {
         use crate::proc::{self, Cmd, Scratch};
@@ -321,6 +357,10 @@ pub fn replay(rep: &'static Report, case: &Value) {
         "other-pw" => other_pw_case(rep, &a32("sk"), case["wn"].as_str().unwrap(), &g("w"), case["w2n"].as_str().unwrap(), &g("w2"), case["locked"].as_str().unwrap()),
         "flip" => flip_case(rep, &a32("sk"), &g("pw"), &g("blob"), case["bit"].as_u64().unwrap() as usize),
         "string" => string_case(rep, case["s"].as_str().unwrap(), &g("pw"), case["orig"].as_str().unwrap(), &a32("sk")),
+        "cli-bytes" => {
+            println!("  re-running C15");
+            run(rep);
+        }
         "cli-flip" => {
             let sc = crate::proc::Scratch::new();
             let out = crate::proc::run(&crate::proc::Cmd::new(&["key", "extract-pub", case["locked"].as_str().unwrap(), "--env-pass"]).env("KESTREL_PASSWORD", case["pw"].as_str().unwrap()), &sc.0);
